@@ -8,25 +8,25 @@
    [react_spec] is the property text as a loop; [agent_run] is the superstep-level model of the
    graph NewAgent builds.  [step_exact checker md s] = in mode [md] the consumer of the model's
    output receives the scripted reply and the checker reports "tool calls" iff it has some. *)
-From Eino Require Import Base.Util Model.Tools Model.React Proofs.React.
+From Eino Require Import Base.Util Model.Tools Model.React Proofs.React Proofs.ReactExt.
 Local Open Scope string_scope.
 
 (* the graph-level loop IS the specification, for every script, tools node, return-directly
    set, modifier and step limit — in any mode in which the checker is exact *)
 Theorem react_refines_spec :
-  forall tn rd rd_nonempty modifier checker md script max_steps input,
+  forall tn rd rd_nonempty modifier visible checker md script max_steps input,
     Forall (step_exact checker md) script ->
-    agent_run tn rd rd_nonempty modifier checker md max_steps script input
-    = react_spec tn rd rd_nonempty modifier script max_steps input.
+    agent_run tn rd rd_nonempty modifier visible checker md max_steps script input
+    = react_spec tn rd rd_nonempty modifier visible script max_steps input.
 Proof. exact agent_refines_spec. Qed.
 Print Assumptions react_refines_spec.
 
 (* Generate needs no hypothesis beyond the checker being exact on a whole message ... *)
 Theorem react_generate_refines_spec :
-  forall tn rd rd_nonempty modifier checker script max_steps input,
+  forall tn rd rd_nonempty modifier visible checker script max_steps input,
     (forall content calls, checker [whole_chunk content calls] = nonempty calls) ->
-    agent_run tn rd rd_nonempty modifier checker Generate max_steps script input
-    = react_spec tn rd rd_nonempty modifier script max_steps input.
+    agent_run tn rd rd_nonempty modifier visible checker Generate max_steps script input
+    = react_spec tn rd rd_nonempty modifier visible script max_steps input.
 Proof. exact generate_refines_spec. Qed.
 Print Assumptions react_generate_refines_spec.
 
@@ -41,67 +41,139 @@ Print Assumptions real_checkers_exact_on_whole.
 (* the k-th model call sees (the modifier applied to) the original messages followed by every
    earlier assistant message and the tool results for its calls, in order *)
 Theorem kth_model_input :
-  forall tn rd rd_nonempty modifier checker md script max_steps input k h,
+  forall tn rd rd_nonempty modifier visible checker md script max_steps input k h,
     Forall (step_exact checker md) script ->
-    nth_error (t_inputs (agent_run tn rd rd_nonempty modifier checker md max_steps script input)) k = Some h ->
+    nth_error (t_inputs (agent_run tn rd rd_nonempty modifier visible checker md max_steps script input)) k = Some h ->
     exists h', history tn script k input = Some h' /\ h = modifier h'.
 Proof. exact agent_kth_input. Qed.
 Print Assumptions kth_model_input.
 
+(* ... where [history] is, explicitly: the original messages, then for each of the first k replies
+   the reply itself followed by the tool messages the tools node returned for its calls *)
+Theorem history_is_rounds_in_order :
+  forall tn script k hist h,
+    history tn script k hist = Some h ->
+    exists rounds,
+      List.length rounds = k
+      /\ Forall2 (fun s rs => match s with SMsg _ calls _ => tn calls = Ok rs | SFail => False end)
+                 (firstn k script) rounds
+      /\ h = (hist ++ flat_map (fun p => round_msgs (fst p) (snd p)) (combine (firstn k script) rounds))%list.
+Proof. exact history_shape. Qed.
+Print Assumptions history_is_rounds_in_order.
+
+(* ... and the tool messages of a round answer that round's calls one by one, in call order
+   (tool role, the i-th message carries the i-th call's id), for a tools node that answers in
+   call order [tn_in_order] — which compose.ToolsNode does for every completion order of the
+   concurrently running tools (property C17; proved here for the model of it that the
+   correspondence check runs, Model/Tools.v tools_invoke inside a graph) *)
+Theorem tool_results_in_call_order :
+  forall tn calls results,
+    tn_in_order tn -> tn calls = Ok results ->
+    map m_tcid (map tool_msg results) = map c_id calls
+    /\ Forall (fun m => m_role m = RTool /\ m_calls m = []) (map tool_msg results).
+Proof. exact round_results_in_call_order. Qed.
+Print Assumptions tool_results_in_call_order.
+
+Theorem tools_node_answers_in_call_order :
+  forall kind_of inv str handler pi_of,
+    tn_in_order (fun calls => in_graph (tools_invoke kind_of inv str handler (pi_of calls) true calls)).
+Proof. exact in_graph_tools_in_order. Qed.
+Print Assumptions tools_node_answers_in_call_order.
+
+(* strict alternation: the k-th tool round runs exactly the (non-empty) calls of the model's k-th
+   reply, and there is never a round without a model call before it nor two model calls without
+   a round between them *)
+Theorem kth_round_runs_kth_reply :
+  forall tn rd rd_nonempty modifier visible checker md script max_steps input k cs,
+    Forall (step_exact checker md) script ->
+    nth_error (t_rounds (agent_run tn rd rd_nonempty modifier visible checker md max_steps script input)) k = Some cs ->
+    cs <> [] /\ exists content chunks, nth_error script k = Some (SMsg content cs chunks).
+Proof. exact agent_kth_round. Qed.
+Print Assumptions kth_round_runs_kth_reply.
+
+Theorem model_and_tools_alternate :
+  forall tn rd rd_nonempty modifier visible checker md script max_steps input,
+    Forall (step_exact checker md) script ->
+    let t := agent_run tn rd rd_nonempty modifier visible checker md max_steps script input in
+    List.length (t_rounds t) <= List.length (t_inputs t) <= S (List.length (t_rounds t)).
+Proof. exact agent_alternation. Qed.
+Print Assumptions model_and_tools_alternate.
+
+(* what react.WithMessageFuture hands out (flow/agent/react/option.go) is the growing history:
+   every model input is the modifier applied to the original messages followed by a prefix of the
+   handed-out messages, and a plain answer is the last message handed out *)
+Theorem message_future_is_history :
+  forall tn rd rd_nonempty modifier visible checker md script max_steps input k h,
+    Forall (step_exact checker md) script ->
+    (forall c, visible c = true) -> tn_in_order tn ->
+    nth_error (t_inputs (agent_run tn rd rd_nonempty modifier visible checker md max_steps script input)) k = Some h ->
+    exists n, h = modifier (input ++ firstn n (t_emits (agent_run tn rd rd_nonempty modifier visible checker md max_steps script input)))%list.
+Proof. exact agent_emits_are_history. Qed.
+Print Assumptions message_future_is_history.
+
+Theorem message_future_ends_with_plain_answer :
+  forall tn rd rd_nonempty modifier visible checker md script max_steps input m,
+    Forall (step_exact checker md) script ->
+    t_out (agent_run tn rd rd_nonempty modifier visible checker md max_steps script input) = Final m ->
+    m_role m = RAssistant ->
+    exists pre, t_emits (agent_run tn rd rd_nonempty modifier visible checker md max_steps script input) = (pre ++ [m])%list.
+Proof. exact agent_emits_end_with_plain_answer. Qed.
+Print Assumptions message_future_ends_with_plain_answer.
+
 (* the answer is the first assistant message without tool calls, or the result of the first
    call to a return-directly tool ([answers] is that predicate) ... *)
 Theorem returns_first_plain_or_direct :
-  forall tn rd rd_nonempty modifier checker md script max_steps input m,
+  forall tn rd rd_nonempty modifier visible checker md script max_steps input m,
     Forall (step_exact checker md) script ->
-    t_out (agent_run tn rd rd_nonempty modifier checker md max_steps script input) = Final m ->
+    t_out (agent_run tn rd rd_nonempty modifier visible checker md max_steps script input) = Final m ->
     answers tn rd rd_nonempty script m.
 Proof. exact agent_final_is_answer. Qed.
 Print Assumptions returns_first_plain_or_direct.
 
 (* ... and it is returned whenever the step limit allows the steps it needs *)
 Theorem returns_answer_within_limit :
-  forall tn rd rd_nonempty modifier checker md script max_steps input m,
+  forall tn rd rd_nonempty modifier visible checker md script max_steps input m,
     Forall (step_exact checker md) script ->
     answers tn rd rd_nonempty script m -> steps_needed rd rd_nonempty script <= max_steps ->
-    t_out (agent_run tn rd rd_nonempty modifier checker md max_steps script input) = Final m.
+    t_out (agent_run tn rd rd_nonempty modifier visible checker md max_steps script input) = Final m.
 Proof. exact agent_answer_is_final. Qed.
 Print Assumptions returns_answer_within_limit.
 
 (* never more node executions (model calls + tool rounds + direct return) than the limit, and a
    model that keeps calling tools is stopped with the step-limit error *)
 Theorem steps_within_limit :
-  forall tn rd rd_nonempty modifier checker md script max_steps input,
+  forall tn rd rd_nonempty modifier visible checker md script max_steps input,
     Forall (step_exact checker md) script ->
-    executions (agent_run tn rd rd_nonempty modifier checker md max_steps script input) <= max_steps.
+    executions (agent_run tn rd rd_nonempty modifier visible checker md max_steps script input) <= max_steps.
 Proof. exact agent_steps_bounded. Qed.
 Print Assumptions steps_within_limit.
 
 Theorem stops_with_step_limit :
-  forall tn rd rd_nonempty modifier checker md script max_steps input,
+  forall tn rd rd_nonempty modifier visible checker md script max_steps input,
     Forall (step_exact checker md) script ->
     Forall (looping tn rd rd_nonempty) script -> max_steps <= 2 * List.length script ->
-    t_out (agent_run tn rd rd_nonempty modifier checker md max_steps script input) = Failed EStepLimit.
+    t_out (agent_run tn rd rd_nonempty modifier visible checker md max_steps script input) = Failed EStepLimit.
 Proof. exact agent_step_limit_stops. Qed.
 Print Assumptions stops_with_step_limit.
 
 (* Generate and Stream agree — whole trace: model inputs, tool rounds, outcome — for every
    chunking of the replies, GIVEN a checker that is exact on those chunkings (checker_exact) *)
 Theorem generate_stream_agree :
-  forall tn rd rd_nonempty modifier checker script max_steps input,
+  forall tn rd rd_nonempty modifier visible checker script max_steps input,
     (forall content calls, checker [whole_chunk content calls] = nonempty calls) ->
     Forall chunking_valid script ->
     Forall (checker_exact checker) script ->
-    agent_run tn rd rd_nonempty modifier checker Stream max_steps script input
-    = agent_run tn rd rd_nonempty modifier checker Generate max_steps script input.
+    agent_run tn rd rd_nonempty modifier visible checker Stream max_steps script input
+    = agent_run tn rd rd_nonempty modifier visible checker Generate max_steps script input.
 Proof. exact generate_stream_agree_gen. Qed.
 Print Assumptions generate_stream_agree.
 
 (* a checker that reads the whole stream satisfies checker_exact on every chunking *)
 Theorem generate_stream_agree_with_exact_checker :
-  forall tn rd rd_nonempty modifier script max_steps input,
+  forall tn rd rd_nonempty modifier visible script max_steps input,
     Forall chunking_valid script ->
-    agent_run tn rd rd_nonempty modifier exact_checker Stream max_steps script input
-    = agent_run tn rd rd_nonempty modifier exact_checker Generate max_steps script input.
+    agent_run tn rd rd_nonempty modifier visible exact_checker Stream max_steps script input
+    = agent_run tn rd rd_nonempty modifier visible exact_checker Generate max_steps script input.
 Proof. exact generate_stream_agree_exact_checker. Qed.
 Print Assumptions generate_stream_agree_with_exact_checker.
 
@@ -140,21 +212,30 @@ Example step_exact_nonvacuous :
 Proof. vm_compute. repeat split; repeat constructor. Qed.
 (* ... the run is two rounds ending in a return-directly result, identically in both modes *)
 Example run_nonvacuous :
-  let t := agent_run ex_tn ex_rd true (fun h => h) default_checker Stream 13 ex_script ex_input in
+  let t := agent_run ex_tn ex_rd true (fun h => h) (fun _ => true) default_checker Stream 13 ex_script ex_input in
   t_out t = Final (mkMsg RTool "final(w)" [] "b1")
   /\ List.length (t_inputs t) = 2%nat /\ List.length (t_rounds t) = 2%nat
-  /\ t = agent_run ex_tn ex_rd true (fun h => h) default_checker Generate 13 ex_script ex_input
+  /\ t = agent_run ex_tn ex_rd true (fun h => h) (fun _ => true) default_checker Generate 13 ex_script ex_input
   /\ nth_error (t_inputs t) 1
      = Some [mkMsg RUser "q" [] ""; assistant "" [mkCall "a0" "search" "x"; mkCall "a1" "calc" "y"];
              mkMsg RTool "search(x)" [] "a0"; mkMsg RTool "calc(y)" [] "a1"].
 Proof. vm_compute. repeat split; reflexivity. Qed.
 (* ... and with one step less the direct-return node cannot run *)
 Example step_limit_nonvacuous :
-  t_out (agent_run ex_tn ex_rd true (fun h => h) default_checker Generate 4 ex_script ex_input) = Failed EStepLimit
-  /\ t_out (agent_run ex_tn ex_rd true (fun h => h) default_checker Generate 5 ex_script ex_input)
+  t_out (agent_run ex_tn ex_rd true (fun h => h) (fun _ => true) default_checker Generate 4 ex_script ex_input) = Failed EStepLimit
+  /\ t_out (agent_run ex_tn ex_rd true (fun h => h) (fun _ => true) default_checker Generate 5 ex_script ex_input)
      = Final (mkMsg RTool "final(w)" [] "b1").
 Proof. vm_compute. split; reflexivity. Qed.
 Example looping_nonvacuous :
   Forall (looping ex_tn ex_rd false) (firstn 2 ex_script)
-  /\ t_out (agent_run ex_tn ex_rd false (fun h => h) exact_checker Stream 4 (firstn 2 ex_script) ex_input) = Failed EStepLimit.
+  /\ t_out (agent_run ex_tn ex_rd false (fun h => h) (fun _ => true) exact_checker Stream 4 (firstn 2 ex_script) ex_input) = Failed EStepLimit.
 Proof. vm_compute. split; [repeat constructor; try discriminate; eexists; reflexivity | reflexivity]. Qed.
+(* the tools node of the examples answers in call order; the future's messages of the example run *)
+Example tn_in_order_nonvacuous : tn_in_order ex_tn.
+Proof. intros calls results H. inversion H. rewrite map_map. reflexivity. Qed.
+Example future_nonvacuous :
+  let t := agent_run ex_tn ex_rd true (fun h => h) (fun _ => true) default_checker Stream 13 ex_script ex_input in
+  List.length (t_emits t) = 6%nat
+  /\ nth_error (t_inputs t) 1 = Some (ex_input ++ firstn 3 (t_emits t))%list
+  /\ nth_error (t_rounds t) 1 = Some [mkCall "b0" "search" "z"; mkCall "b1" "final" "w"].
+Proof. vm_compute. repeat split; reflexivity. Qed.
